@@ -142,7 +142,7 @@ def subchecks(tier):
     w = dict(common.full_profile().weights)
     w.update({"schedule": 0.4, "capacity": 0.4, "tracker": 0.0})
     prof = S.Profile(ALLOWED, weights=w, numeric="cont", max_nodes=3, max_classes=3, plans=("max_time",), horizon=(3.0, 14.0),
-                     budget=800, resumptions=(2, 5), finite_arrivals=0.3, excluded=common.EXCL["C16"] + ("pause_busy_time_priority",))
+                     budget=800, resumptions=(2, 5), finite_arrivals=0.3, excluded=common.EXCL["C16"])
     wj = {"routing_objects": 0.3, "self_loops": 0.4, "priorities": 0.3, "capacity": 0.3, "discipline": 0.5, "batching": 0.2, "reneging": 0.2, "inf": 0.2}
     near = S.Profile(list(wj), weights=wj, numeric="jitter", max_nodes=3, max_classes=2, plans=("max_time",), horizon=(3.0, 12.0), budget=800,
                      resumptions=(3, 6), load="heavy", finite_arrivals=0.2)
